@@ -165,6 +165,21 @@ pub fn run(a: &Args, rep: &mut Report) {
             }
         })
         .collect();
+    // packets that START AT THE SAME ADDRESS as another packet of the pool but have another length
+    // (a receive slot reused for a shorter frame): windows into the start-aligned 64/1500/4096-byte
+    // buffers. A VM that remembers anything about the previous packet by its address is wrong here.
+    let mut pool = pool;
+    let mut same_start: Vec<(usize, usize)> = Vec::new();
+    if !cfg!(miri) {
+        for (idx, short) in [(11usize, 32usize), (13, 700), (15, 100), (15, 4095)] {
+            if let Some(parent) = pool[idx].as_ref() {
+                let v = GuardBuf::view(parent, 0, short);
+                pool.push(Some(v));
+                same_start.push((idx, pool.len() - 1));
+            }
+        }
+    }
+    let pool = pool;
     let mbuff = GuardBuf::new(32, true, false);
     mbuff.fill(&[0xabu8; 32]);
     let engines: Vec<Engine> = if cfg!(feature = "std") { vec![Engine::Interp, Engine::Jit, Engine::Cranelift] } else { vec![Engine::Interp, Engine::Jit] };
@@ -209,7 +224,13 @@ pub fn run(a: &Args, rep: &mut Report) {
         if engine == Engine::Jit && matches!(probe, Probe::StackAboveTop | Probe::StackBelowBottom) {
             continue;
         }
-        let pkts: Vec<usize> = (0..3).map(|_| rng.below(pool.len() as u64) as usize).collect();
+        let pkts: Vec<usize> = if !same_start.is_empty() && rng.chance(1, 4) {
+            // long packet, shorter packet at the same address, long packet again (or the reverse)
+            let (a, b) = same_start[rng.below(same_start.len() as u64) as usize];
+            if rng.chance(1, 2) { vec![a, b, a] } else { vec![b, a, b] }
+        } else {
+            (0..3).map(|_| rng.below(pool.len() as u64) as usize).collect()
+        };
         let mbuff_empty = kind == Kind::Mbuff && matches!(probe, Probe::R1) && rng.chance(1, 2);
         cases.push(C9 { kind, offs, probe, engine, pkts, via_set_program: rng.chance(1, 3), mbuff_empty });
     }
